@@ -203,13 +203,18 @@ def _type_params(sig):
     return out
 
 
-def _subst_types(x, rx, repl):
+_TYPE_KEYS = ("ty", "elem", "callee_args", "resolved_args", "obligations", "resolved_obligations", "callee_impl_self")
+
+
+def _subst_types(x, rx, repl, typed=False):
+    """Substitution in the type-bearing fields only: a callee *path* such as `Result::<T, E>::map` spells std's own
+    parameters, not the helper's."""
     if isinstance(x, str):
-        return rx.sub(repl, x)
+        return rx.sub(repl, x) if typed else x
     if isinstance(x, list):
-        return [_subst_types(e, rx, repl) for e in x]
+        return [_subst_types(e, rx, repl, typed) for e in x]
     if isinstance(x, dict):
-        return {k: _subst_types(v, rx, repl) for k, v in x.items()}
+        return {k: _subst_types(v, rx, repl, typed or k in _TYPE_KEYS) for k, v in x.items()}
     return x
 
 
